@@ -33,6 +33,8 @@ def run(ctx):
     pairing_remove(ctx)
     pairing_replace(ctx, ef)
     rehoming_swaps_everything(ctx)
+    from ..rules import memo, shared
+    memo.check(ctx, cg, ef, res, shared.api_entries(sm))
 
 
 def ownership(ctx, ef):
@@ -193,7 +195,7 @@ def prune_rules(ctx, f):
         hg = cfg_of(helper.node)
         for p in hg.stmt_nodes():
             calls = [x for e in p.exprs() for x in walk_local(e) if isinstance(x, ast.Call) and isinstance(x.func, ast.Attribute) and x.func.attr == 'remove'
-                     and any(ed.callee.cls is not None and ed.callee.cls.name == 'Tree' for ed in cg.by_node.get(x, []))]
+                     and any(ed.resolved and ed.callee.cls is not None and ed.callee.cls.name == 'Tree' for ed in cg.by_node.get(x, []))]
             for c in calls:
                 n_prunes += 1
                 recv = unparse(c.func.value)
@@ -264,18 +266,28 @@ def pairing_replace(ctx, ef):
         if st is not None:
             leaf_nodes.append(g.node_of_stmt[st])
     res.check(_must(g, leaf_nodes, on), 'R-PAIR.replace', f.fq, "checked: the leaf is updated on every normal path", key='R-PAIR.replace|leaf-every-path')
-    # the leaf is the removed child's leaf
-    holder = None
+    # the leaf is the removed child's leaf: the object whose list is written is `old.parent_xsd_element`, named directly or through a local
+    want = f"{old_var}.parent_xsd_element"
+    holder_txt = None
     for w in swaps:
         if isinstance(w.node, ast.Assign):
-            base = w.node.targets[0]
-            while isinstance(base, (ast.Attribute, ast.Subscript)):
-                base = base.value
-            holder = base.id if isinstance(base, ast.Name) else None
-    hd = [unparse(d.ast.value) for d in dom.assignments_to(g, holder) if isinstance(d.ast, ast.Assign)] if holder else []
-    res.check(hd == [f"{old_var}.parent_xsd_element"], 'R-PAIR.replace', f.fq, "the leaf written is the removed child's own leaf", fail_detail=f"{holder} = {hd}",
+            t = w.node.targets[0]
+            while isinstance(t, ast.Subscript):
+                t = t.value
+            if isinstance(t, ast.Attribute) and t.attr in ('_xml_elements', 'xml_elements'):
+                holder_txt = unparse(t.value)
+
+    def denotes_leaf(txt):
+        if txt == want:
+            return True
+        if txt and txt.isidentifier():
+            hd_ = [unparse(d.ast.value) for d in dom.assignments_to(g, txt) if isinstance(d.ast, ast.Assign)]
+            return hd_ == [want]
+        return False
+    res.check(denotes_leaf(holder_txt), 'R-PAIR.replace', f.fq, "the leaf written is the removed child's own leaf", fail_detail=f"the list of `{holder_txt}` is written",
               key='R-PAIR.replace|same-leaf')
-    bp = [n for n in g.stmt_nodes() if n.kind == 'stmt' and isinstance(n.ast, ast.Assign) and unparse(n.ast.targets[0]) == f"{new}.parent_xsd_element" and unparse(n.ast.value) == holder]
+    bp = [n for n in g.stmt_nodes() if n.kind == 'stmt' and isinstance(n.ast, ast.Assign) and unparse(n.ast.targets[0]) == f"{new}.parent_xsd_element" and
+          denotes_leaf(unparse(n.ast.value))]
     res.check(_must(g, bp, on), 'R-PAIR.replace', f.fq, "checked: the new child's leaf back-pointer is set to that leaf", key='R-PAIR.replace|new-back-pointer')
     np = [n for n in g.stmt_nodes() if n.kind == 'stmt' and isinstance(n.ast, ast.Assign) and unparse(n.ast.targets[0]) == f"{new}._parent" and unparse(n.ast.value) == 'self']
     op = [n for n in g.stmt_nodes() if n.kind == 'stmt' and isinstance(n.ast, ast.Assign) and unparse(n.ast.targets[0]).endswith('._parent') and unparse(n.ast.value) == 'None']
